@@ -20,11 +20,13 @@ type c10Op struct {
 	Op string   `json:"op"`
 	Q  string   `json:"q"`
 	S  []string `json:"s"`
+	V  int      `json:"v"`
 }
 
 type c10Stim struct {
 	ID    int     `json:"id"`
 	Arity int     `json:"arity"`
+	Univ  string  `json:"univ"` // "user": defclass chain k1 < k2 < k3; "builtin": fixnum < integer < real
 	Ops   []c10Op `json:"ops"`
 }
 
@@ -55,6 +57,16 @@ func c10(args []string) {
 			panic(err)
 		}
 		g := fmt.Sprintf("gf-%d", st.ID)
+		cls := func(k string) string { return k }
+		inst := func(k string) string { return fmt.Sprintf("(make-instance '%s)", k) }
+		if st.Univ == "builtin" {
+			cls = func(k string) string {
+				return map[string]string{"k1": "fixnum", "k2": "integer", "k3": "real", "t": "t"}[k]
+			}
+			inst = func(k string) string {
+				return map[string]string{"k1": "7", "k2": "1180591620717411303424", "k3": "1.5"}[k]
+			}
+		}
 		ps := params[:st.Arity]
 		h.Eval(s, fmt.Sprintf("(defgeneric %s (%s))", g, strings.Join(ps, " ")))
 		steps := []any{}
@@ -64,20 +76,28 @@ func c10(args []string) {
 			case "def":
 				sl := make([]string, st.Arity)
 				for i := range ps {
-					sl[i] = fmt.Sprintf("(%s %s)", ps[i], op.S[i])
+					sl[i] = fmt.Sprintf("(%s %s)", ps[i], cls(op.S[i]))
 				}
 				tag := strings.Join(op.S, ",")
-				body := fmt.Sprintf(`(vmark "%s:%s")`, tag, op.Q)
+				body := fmt.Sprintf(`(vmark "%s:%s:%d")`, tag, op.Q, op.V)
 				if op.Q == "around" {
-					body = fmt.Sprintf(`(vmark "%s:in") (call-next-method %s) (vmark "%s:out")`, tag, strings.Join(ps, " "), tag)
+					if op.V == 1 {
+						body = fmt.Sprintf(`(vmark "%s:in:1") (call-next-method %s) (vmark "%s:out:1")`, tag, strings.Join(ps, " "), tag)
+					} else { // version 2 of an :around body does not continue
+						body = fmt.Sprintf(`(vmark "%s:stop:2")`, tag)
+					}
 				}
 				src = fmt.Sprintf("(defmethod %s %s(%s) %s)", g, qual[op.Q], strings.Join(sl, " "), body)
 			case "rem":
-				src = fmt.Sprintf("(remove-method '%s (find-method '%s %s '(%s)))", g, g, qlist[op.Q], strings.Join(op.S, " "))
+				cs := make([]string, len(op.S))
+				for i := range op.S {
+					cs[i] = cls(op.S[i])
+				}
+				src = fmt.Sprintf("(remove-method '%s (find-method '%s %s '(%s)))", g, g, qlist[op.Q], strings.Join(cs, " "))
 			case "call":
 				as := make([]string, st.Arity)
 				for i := range ps {
-					as[i] = fmt.Sprintf("(make-instance '%s)", op.S[i])
+					as[i] = inst(op.S[i])
 				}
 				src = fmt.Sprintf("(%s %s)", g, strings.Join(as, " "))
 			}
